@@ -560,6 +560,21 @@ Definition post_cell (c : cell) : cell :=
 Definition post_proc_data (t : table) : table :=
   {| cols := cols t; rows := map (map post_cell) (rows t) |}.
 
+(* Dispatcher.get_data_file on a FILE PATH:
+     pd.read_csv(path, sep='\t', header=0, keep_default_na=False, na_values=",null")
+   on the modelled fragment: a column all of whose cells are integers is read as
+   numbers, every other column keeps the text of its cells -- in particular
+   None, NA, null, nan, NULL and the empty cell stay ordinary text; nothing is
+   turned into a missing value at load time (the only NA spelling, the cell
+   ",null", is outside the fragment). *)
+Definition is_int_text (s : str) : bool :=
+  match parse_int s with Some _ => true | None => false end.
+Definition read_cell (numeric : bool) (s : str) : cell :=
+  if numeric then match parse_int s with Some z => CNum z | None => CStr s end else CStr s.
+Definition read_table (cs : list str) (rs : list (list str)) : table :=
+  let numeric := map (fun j => forallb (fun r => is_int_text (nth j r [])) rs) (seq 0 (length cs)) in
+  {| cols := cs; rows := map (fun r => zip_with read_cell numeric r) rs |}.
+
 (* Dispatcher.run_operations on a DataFrame (get_data_file copies it).
    A table with duplicate column names is outside the modelled fragment. *)
 Fixpoint run_operations (fx : fixes) (sts : list opstate) (t : table) : list opstate * res table :=
